@@ -224,6 +224,8 @@ pub struct Layout {
     pub indent_pct: u64,
     pub final_newline: bool,
     pub crlf: bool,
+    /// indentation / trailing blanks made of U+00A0 or U+2003 (white space to the lexer)
+    pub nbsp_pct: u64,
 }
 
 impl Layout {
@@ -237,6 +239,7 @@ impl Layout {
             indent_pct: 0,
             final_newline: true,
             crlf: false,
+            nbsp_pct: 0,
         }
     }
     pub fn swarm(r: &mut Rng) -> Layout {
@@ -250,6 +253,7 @@ impl Layout {
             indent_pct: z(r, 60),
             final_newline: !r.chance(25),
             crlf: r.chance(8),
+            nbsp_pct: if r.chance(12) { r.range(5, 40) } else { 0 },
         }
     }
 }
@@ -358,6 +362,16 @@ impl<'a> G<'a> {
         if self.r.chance(self.cfg.layout.indent_pct) {
             let n = self.r.urange(1, 6);
             pre = if self.r.chance(20) { "\t".to_owned() } else { " ".repeat(n) };
+        }
+        if self.r.chance(self.cfg.layout.nbsp_pct) {
+            // what a word processor or a web page leaves behind: still white space to the lexer
+            let sp = *self.r.pick(&["\u{a0}", "\u{2003}", "\u{a0}\u{a0}"]);
+            if self.r.chance(50) {
+                pre.push_str(sp);
+            } else {
+                suf.push_str(sp);
+            }
+            self.tag("non_ascii_blanks");
         }
         if self.r.chance(self.cfg.layout.comment_pct) {
             suf.push_str(*self.r.pick(&[
@@ -492,9 +506,16 @@ impl<'a> G<'a> {
     fn plain(&mut self) {
         if self.cfg.feat.memops && self.cfg.feat.edges && self.r.chance(6) {
             // move the data segment, sometimes to the very top of the address space
-            let v = *self.r.pick(&[0u16, 0xFFFF, 0x1000, 0xFFF0, 1]);
-            self.set_seg("ds", v);
-            self.tag("ds_changed");
+            let v = *self.r.pick(&[0u16, 0xFFFF, 0x1000, 0xFFF0, 1, 0x12AB]);
+            // mostly the data segment; the other three now and then (instructions are fetched by
+            // index here, so a program may even move CS)
+            let seg = *self.r.pick(&["ds", "ds", "ds", "es", "ss", "cs"]);
+            if seg == "ss" && self.depth > 0 {
+                self.set_seg("ds", v);
+            } else {
+                self.set_seg(seg, v);
+            }
+            self.tag(if seg == "ds" { "ds_changed" } else { "other_segment_changed" });
             return;
         }
         let k = self.r.below(14);
@@ -702,7 +723,8 @@ impl<'a> G<'a> {
             } else if edges && self.r.chance(50) {
                 // string crossing the end of the address space
                 self.set_seg("es", 0xFFFF);
-                let bp = self.r.range(0, 15) as u16;
+                // ES*16+BP may itself lie beyond 1 MB (BP >= 16): it wraps to the bottom of memory
+                let bp = if self.r.chance(50) { self.r.range(0, 15) as u16 } else { self.r.range(16, 0x60) as u16 };
                 let s = self.num16(bp);
                 self.ins(&format!("mov bp, {}", s), "plain");
                 self.tag("int10_13_wrap");
